@@ -1281,6 +1281,27 @@ package ring
 //@   loop 0 lemma cong_trans(result*pow(x, i), prev(result)*prev(x)*pow(prev(x)*prev(x), i), pow(old(x), e), p)
 //@   loop 0 lemma cong_trans(result*pow(x, i), prev(result)*pow(prev(x)*prev(x), i), pow(old(x), e), p)
 
+// ModExpPow2: wrapping square-and-multiply, reduced by masking at the end; p is a power of two,
+// written as a positive divisor of W = 2^64.  Same invariant as ModExp, modulo W.
+//@ func ModExpPow2
+//@   property C11
+//@   requires 0 < p && W % p == 0
+//@   ensures result < p
+//@   ensures cong(result, pow(old(x), e), p)
+//@   loop 0 invariant 0 <= i && i <= e
+//@   loop 0 invariant cong(result * pow(x, i), pow(old(x), e), W)
+//@   loop 0 decreases i
+//@   loop 0 lemma pow_one(x); cong_refl(pow(x, i), W); pow_even(prev(x), prev(i)); pow_odd(prev(x), prev(i)); pow_cong(x, prev(x)*prev(x), i, W)
+//@   loop 0 lemma cong_intro(x, prev(x)*prev(x), 0 - (prev(x)*prev(x))/W, W); cong_intro(result, prev(result)*prev(x), 0 - (prev(result)*prev(x))/W, W)
+//@   loop 0 lemma cong_scale(pow(x, i), pow(prev(x)*prev(x), i), prev(result), W); cong_scale(pow(x, i), pow(prev(x)*prev(x), i), prev(result)*prev(x), W)
+//@   loop 0 lemma mulhyp(pow(prev(x), prev(i)), pow(prev(x)*prev(x), i), prev(result)); mulhyp(pow(prev(x), prev(i)), prev(x)*pow(prev(x)*prev(x), i), prev(result))
+//@   loop 0 lemma cong_scale(result, prev(result)*prev(x), pow(x, i), W)
+//@   loop 0 lemma cong_trans(result*pow(x, i), prev(result)*prev(x)*pow(x, i), prev(result)*prev(x)*pow(prev(x)*prev(x), i), W)
+//@   loop 0 lemma cong_trans(result*pow(x, i), prev(result)*prev(x)*pow(prev(x)*prev(x), i), pow(old(x), e), W)
+//@   loop 0 lemma cong_trans(result*pow(x, i), prev(result)*pow(prev(x)*prev(x), i), pow(old(x), e), W)
+//@   loop 0 post result & (p - 1) == result % p by and_mask(result, p)
+//@   loop 0 post cong(result % p, pow(old(x), e), p) by pow_zero(x); mulhyp(pow(x, 0), 1, result); cong_dvd(result * pow(x, 0), pow(old(x), e), W, p); cong_dvd(result, pow(old(x), e), W, p); cong_mod(result, p); cong_trans(result % p, result, pow(old(x), e), p)
+
 //@ func Ring.NthRoot
 //@   assigns
 //@   requires 0 < len(r.SubRings)
